@@ -25,7 +25,7 @@ CHECKS = {
  "C15": ("model_checking", "5 C15", "TLC enumerates supported host regexes with one documented-unsupported construct planted at every node position (pattern or lookahead, first or second mode) and replays the builds; random strings over the regex meta-alphabet are built by the harness and TLC validates the verdict (Err iff syntax error or unsupported construct) - a panic is never a behaviour.", NOTE + "; the harness' translation of the regex-syntax AST marks unsupported nodes", TECH),
  "C08": ("exploration", "5 C08", "TLC enumerates class-expression shapes (union, &&, --, ~~, negation and redundant nesting at any level over 5 base symbols) and defines Member(expr, atom); the harness instantiates the symbols from a table of 51 concrete items, measures every base item alone and every whole expression over ALL 1,112,064 scalars through the public API, and TLC compares the measured membership with Member on every realised atom; the base facts (literal, dot, ASCII parts of \\d \\s \\w, complements, inclusive range bounds) are checked by TLC on the measured tables. Exhaustive in the character domain, bounded/sampled in expression depth.", "items used alone are measured through the public API; TLC; regex-syntax", "TLA+ spec (CharClass!Member) evaluated by TLC on atoms measured over all scalars"),
  "C16": ("model_checking", "5 C16", "TLC enumerates abstract mode lists and Match/MatchExt/Span/Position values in the README layout and writes them with its own JSON serialiser; the harness deserialises them into the Rust types, compares with API-built values, re-serialises with serde_json, builds and scans both; TLC reads serde's text back and compares it with the abstract value; the README's JSON block is read verbatim.", "TLC's Json module as layout oracle; serde_json; numbers up to 2^31-1", "TLA+ spec (SerdeLayout) + TLC both ways through its own JSON serialiser"),
- "C18": ("translation_validation", "5 C18", "For generated, random, corpus and specially named configurations generate_compiled_automata_as_dot is called, every file is parsed with a strict DOT parser and TLC decides per file whether the parsed graph equals DotPicture!Picture(dump) (nodes, accepting labels, edges with class ids, one cluster per lookahead with polarity); directory listing (one file per mode, prefix_name.dot) and three unwritable-folder cases (must return Err).", "the harness' DOT parser for the dot-writer subset; verif_dump hook; TLC", "TLA+ spec (DotPicture) relating the automaton dump to the parsed DOT file, decided by TLC"),
+ "C18": ("translation_validation", "5 C18", "For generated, random, corpus and specially named configurations generate_compiled_automata_as_dot is called, every file is parsed with a parser for the DOT language as Graphviz defines it and TLC decides per file whether the parsed graph equals DotPicture!Picture(dump) (nodes, accepting labels, edges with class ids, one cluster per lookahead with polarity); directory listing (one file per mode, prefix_name.dot) and three unwritable-folder cases (must return Err).", "the harness' DOT parser; verif_dump hook; TLC", "TLA+ spec (DotPicture) relating the automaton dump to the parsed DOT file, decided by TLC"),
  "C14": ("model_checking", "5 C14", "The cache under its write lock is modelled with one action per step of ScannerCache::get (CacheConc); TLC checks exhaustively for 3 threads and all build programs that the cache stays coherent, every thread gets the sequential results and all programs terminate under weak fairness. For the code, N threads released by a barrier run seeded programs of builds and scans; the event log emitted by the hooks under the lock is validated by TLC against CacheConc's actions, every thread's calls against the sequential ScannerApi, a hang is a violation, and a probe crate decides Send + Sync at compile time. Sampled schedules, not all schedules.", "sampled real schedules; hooks emit events under the cache lock; TLC", "TLA+ spec (CacheConc) model-checked exhaustively + trace validation of recorded multi-threaded executions"),
  "C17": ("exploration", "5 C17", "Full-scale configurations crossing 2^16 automaton states (65 700 one-character patterns; thorough: a{66000}b) are built through the public API, scanned around the critical indices and the recorded calls are validated by TLC against the ordinary Tokenizer specification; a build error is admissible, a wrong token or a panic is a violation.", "a handful of full-scale cases; build time dominates", "recorded full-scale executions validated by TLC against the TLA+ Tokenizer specification"),
  "C12": ("model_checking", "5 C12", G_TEXT + T_TEXT + "up to five interleaved iterators over one scanner, scanner-level set_mode, cached and uncached builds.", NOTE, TECH),
